@@ -33,7 +33,7 @@ def unitcellTolUsesSum : Bool := false
 def triShift (i j k : Rat) (b : Box) : Vec := ⟨((((i * b.r0.x) + (j * b.r1.x)) + (k * b.r2.x))), ((((i * b.r0.y) + (j * b.r1.y)) + (k * b.r2.y))), ((((i * b.r0.z) + (j * b.r1.z)) + (k * b.r2.z)))⟩
 def triSelect : List String := ["argmin"]
 def triDiffsFrom : String := "fraction_to_coord"
-def triKey : String := "vector_dot(shifted_diffs, shifted_diffs)"
+def triKey : String := "vector_dot(c, c), c = a + s"
 /-- `vectors_from_unitcell`: the array literal with the locals inlined (`cos`/`sin` values and `c_z` as parameters) -/
 def cellBox (la lb lc ca cb cg sg cz : Rat) : Box := ⟨⟨(la), (0 : Rat), (0 : Rat)⟩, ⟨((lb * cg)), ((lb * sg)), (0 : Rat)⟩, ⟨((lc * cb)), (((lc * (ca - (cb * cg))) / sg)), cz⟩⟩
 def cellCzSq (la lb lc ca cb cg sg : Rat) : Rat := (((lc * lc) - (((lc * cb)) * ((lc * cb)))) - ((((lc * (ca - (cb * cg))) / sg)) * (((lc * (ca - (cb * cg))) / sg))))
@@ -45,11 +45,11 @@ def dihNormed : List String := ["v1", "v2", "v3"]
 def angleDot : List String := ["v1", "v2"]
 def angleNormed : List String := ["v1", "v2"]
 def angleClip : List String := ["-1", "1"]
-def distanceDot : List String := ["diff", "diff"]
+def distanceDot : List String := ["v1", "v1"]
 /-- `displacement`: the difference in the two shape branches -/
 def dispDiffThen (v1 v2 : Vec) : Vec := (V3.sub v2 v1)
 def dispDiffElse (v1 v2 : Vec) : Vec := (V3.neg (V3.sub v1 v2))
-def dispDispatch : List (String × String) := [("_displacement_orthogonal_box", "_displacement_triclinic_box"), ("_displacement_orthogonal_box", "_displacement_triclinic_box"), ("_displacement_orthogonal_box", "_displacement_triclinic_box")]
+def dispDispatch : List (String × String) := [("ORTHO", "TRIC"), ("ORTHO", "TRIC"), ("ORTHO", "TRIC")]
 def dispSteps : List String := ["coord_to_fraction", "mod", "is_orthogonal"]
 def orthoSteps : List String := ["fraction_to_coord"]
 def coordToFractionForm : List String := ["matmul", "coord", "linalg.inv(box)"]
@@ -69,16 +69,16 @@ def rpbcPairs : List (List String) := [["0", "coord.shape[-2] - 1"], ["1", "coor
 def rpbcDisp : List String := ["index_displacement", "box=box", "periodic=True"]
 def rpbcCumsum : List String := ["cumsum", "axis=-2"]
 def rpbcBase : List String := ["move_inside_box", "coord[..., 0:1, :]"]
-def rpbcAssign : List (String × String) := [("sanitized_coord[..., 0:1, :]", "base_coord"), ("sanitized_coord[..., 1:, :]", "base_coord + absolute_disp")]
+def rpbcAssign : List (String × String) := [("OUT[..., 0:1, :]", "BASE"), ("OUT[..., 1:, :]", "BASE + CUM")]
 def rpLoopCalls : List String := ["remove_pbc_from_coord", "centroid", "move_inside_box"]
 def rpOutsideCalls : List String := []
-def rpShift : List String := ["center_in_box - center"]
-def rpSelection : List String := ["mask &= selection"]
+def rpShift : List String := ["INBOX - CENTER"]
+def rpSelection : List String := ["&= selection"]
 def rpMasks : List String := ["get_molecule_masks", "get_chain_masks"]
-def rpArgs : List String := ["new_atoms.coord[..., mask, :]", "atoms.box"]
+def rpArgs : List String := ["COPY.coord[..., MASK, :]", "atoms.box"]
 def indexWrappers : List (String × String × Nat) := [("index_displacement", "displacement", 2), ("index_distance", "distance", 2), ("index_angle", "angle", 3), ("index_dihedral", "dihedral", 4)]
-def indexFirstCheck : List String := ["indices.shape[-1] != expected_amount", "ValueError"]
-def indexGather : List String := ["coord(atoms)[..., indices[:, i], :]"]
-def defaults : List (String × String × String) := [("displacement", "box", "None"), ("distance", "box", "None"), ("angle", "box", "None"), ("dihedral", "box", "None"), ("_call_non_index_function", "box", "None"), ("_call_non_index_function", "periodic", "False"), ("repeat_box", "amount", "1"), ("repeat_box_coord", "amount", "1"), ("remove_pbc", "selection", "None"), ("rotate_about_axis", "support", "None"), ("align_vectors", "origin_position", "None"), ("align_vectors", "target_position", "None"), ("orient_principal_components", "order", "None")]
-def raises : List (String × List String) := [("displacement", ["ValueError", "ValueError"]), ("_call_non_index_function", ["ValueError", "ValueError"]), ("repeat_box", ["BadStructureError"]), ("repeat_box_coord", ["TypeError"]), ("remove_pbc", ["BadStructureError"]), ("translate", ["ValueError"]), ("rotate", ["ValueError"]), ("rotate_about_axis", ["ValueError"]), ("align_vectors", ["ValueError", "ValueError", "ValueError", "ValueError", "ValueError"]), ("orient_principal_components", ["ValueError", "ValueError", "ValueError", "ValueError"])]
+def indexFirstCheck : List String := ["indices.shape[-1] != L1", "ValueError"]
+def indexGather : List String := ["coord(atoms)[..., indices[:, COL], :]"]
+def defaults : List (String × String × String) := [("displacement", "box", "None"), ("distance", "box", "None"), ("angle", "box", "None"), ("dihedral", "box", "None"), ("INDEX_DISPATCHER", "box", "None"), ("INDEX_DISPATCHER", "periodic", "False"), ("repeat_box", "amount", "1"), ("repeat_box_coord", "amount", "1"), ("remove_pbc", "selection", "None"), ("rotate_about_axis", "support", "None"), ("align_vectors", "origin_position", "None"), ("align_vectors", "target_position", "None"), ("orient_principal_components", "order", "None")]
+def raises : List (String × List String) := [("displacement", ["ValueError", "ValueError"]), ("INDEX_DISPATCHER", ["ValueError", "ValueError"]), ("repeat_box", ["BadStructureError"]), ("repeat_box_coord", ["TypeError"]), ("remove_pbc", ["BadStructureError"]), ("translate", ["ValueError"]), ("rotate", ["ValueError"]), ("rotate_about_axis", ["ValueError"]), ("align_vectors", ["ValueError", "ValueError", "ValueError", "ValueError", "ValueError"]), ("orient_principal_components", ["ValueError", "ValueError", "ValueError", "ValueError"])]
 end BiotiteModel.Gen.C15
